@@ -117,6 +117,7 @@ def _main(a, seed, t_start):
     units = getattr(mod, 'UNITS', [prop])      # a property may re-use the kernels (contract files) of others: one registry per unit
     obls, functions, undecided_fns, per_fn, regs = [], [], [], {}, []
     from pyvc import state as _state
+    foreign_clauses = []
     for unit in units:
         _state._key_sorts.clear()
         _state._entry_arrays.clear()
@@ -132,6 +133,12 @@ def _main(a, seed, t_start):
                 d = extract.describe(c.target)
                 v = FnVerifier(reg, c, prop, axioms=global_axioms(reg, ev))
                 got = v.run()
+                # a clause carrying a finding recorded under another property belongs to that property's check only
+                # (its `outside-` twin, the clause away from the recorded inputs, stays)
+                foreign = {k['id'] for k in load_all_known() if k.get('status') == 'known' and k.get('property') != prop}
+                drop = [o for o in got if any(('.known-%s' % f) in o.name for f in foreign)]
+                foreign_clauses.extend(o.name for o in drop)
+                got = [o for o in got if o not in drop]
                 per_fn[v.fname] = per_fn.get(v.fname, []) + got
                 obls += got
                 d['obligations'] = len(got)
@@ -343,7 +350,7 @@ def _main(a, seed, t_start):
             'vacuity_guards': {'covers_and_canaries': len(obls) - len(real), 'problems': vac_problems},
             'bounded_standins': [{k: v for k, v in b.items() if k in ('name', 'function', 'bound', 'evaluations', 'distinct', 'failures', 'error', 'exhaustive', 'note')} for b in bounded],
             'known_findings': [k['id'] for k in kf if k.get('status') == 'known'],
-            'known_findings_matched': known_match,
+            'known_findings_matched': known_match, 'clauses_checked_under_another_property': foreign_clauses,
             'second_solver_disagreements': [o.name for o in disagree],
             'lemmas': sorted(reg.lemmas), 'spec_functions': sorted(reg.specfuns),
             'explanation': getattr(mod, 'EXPLANATION', ''),
@@ -439,6 +446,11 @@ def load_baseline(prop):
     if os.path.exists(p):
         return json.load(open(p))
     return {}
+
+
+def load_all_known():
+    p = os.path.join(HERE, 'known_findings.json')
+    return json.load(open(p)) if os.path.exists(p) else []
 
 
 def load_known(prop):
